@@ -1,5 +1,269 @@
-(** M4 (Interp): proof modules (proof.py) -- filled in below. *)
+(** M4 (Interp): proof modules (proof.py): patterns WITH notation, the [Interpreter.pattern]
+    traversal, the memoising wrapper (optimizing_interpreters.py), the gamma and claim phases of a
+    module with imported submodules.  Definitions only. *)
 From Coq Require Import NArith List Bool.
 From Pi2 Require Import ML.Syntax ML.Subst ML.Machine Interp.Calls.
 Import ListNotations.
 Open Scope N_scope.
+
+(** generator-side patterns: the checker's constructors plus [Instantiate] (notation), whose
+    substitution is an insertion-ordered dict *)
+Inductive npat :=
+| NE (n:N) | NS (n:N) | NY (n:N)
+| NImp (l r:npat) | NApp (l r:npat) | NEx (x:N) (p:npat) | NMu (X:N) (p:npat)
+| NMV (id:N) (ef sf pos neg holes:list N)
+| NESub (p:npat) (x:N) (plug:npat) | NSSub (p:npat) (X:N) (plug:npat)
+| NInst (body:npat) (d:list (N * npat)).
+
+(** full notation expansion ([Instantiate.simplify] applied everywhere, bottom-up) *)
+Fixpoint expand (p:npat) : pat :=
+  match p with
+  | NE n => EVar n | NS n => SVar n | NY n => Sym n
+  | NImp l r => Imp (expand l) (expand r)
+  | NApp l r => App (expand l) (expand r)
+  | NEx x q => Ex x (expand q)
+  | NMu X q => Mu X (expand q)
+  | NMV id ef sf ps ng hs => MVar id ef sf ps ng hs
+  | NESub q x plug => ESub (expand q) x (expand plug)
+  | NSSub q X plug => SSub (expand q) X (expand plug)
+  | NInst body d => py_inst (expand body) (map (fun kv => (fst kv, expand (snd kv))) d)
+  end.
+
+(** [assert isinstance(subpattern, MetaVar | ESubst | SSubst)] in [Interpreter.pattern]: the object
+    returned for the sub-pattern must syntactically be one of the three (an [Instantiate] is not) *)
+Definition meta_head (p:npat) : bool :=
+  match p with NMV _ _ _ _ _ _ | NESub _ _ _ | NSSub _ _ _ => true | _ => false end.
+
+(** structural equality (what membership in a Python [set] of frozen dataclasses decides) *)
+Fixpoint npat_eqb (a b:npat) : bool :=
+  match a, b with
+  | NE n, NE m | NS n, NS m | NY n, NY m => N.eqb n m
+  | NImp l r, NImp l' r' | NApp l r, NApp l' r' => npat_eqb l l' && npat_eqb r r'
+  | NEx x p, NEx y q | NMu x p, NMu y q => N.eqb x y && npat_eqb p q
+  | NMV i a1 a2 a3 a4 a5, NMV j b1 b2 b3 b4 b5 =>
+      N.eqb i j && list_eqb a1 b1 && list_eqb a2 b2 && list_eqb a3 b3 && list_eqb a4 b4 && list_eqb a5 b5
+  | NESub p x q, NESub p' y q' | NSSub p x q, NSSub p' y q' => npat_eqb p p' && N.eqb x y && npat_eqb q q'
+  | NInst p d, NInst p' d' =>
+      npat_eqb p p' &&
+      (fix go (d d':list (N * npat)) : bool :=
+         match d, d' with
+         | [], [] => true
+         | (k, v) :: r, (k', v') :: r' => N.eqb k k' && npat_eqb v v' && go r r'
+         | _, _ => false
+         end) d d'
+  | _, _ => false
+  end.
+
+Definition nexpand_delta (d:list (N * npat)) : delta := map (fun kv => (fst kv, expand (snd kv))) d.
+
+(** the calls made by [Interpreter.pattern(p)] (interpreter.py:44); [None] = the isinstance
+    assertion of the ESubst/SSubst arms fails *)
+Fixpoint pattern_calls (p:npat) : option (list call) :=
+  match p with
+  | NE n => Some [CEVar n]
+  | NS n => Some [CSVar n]
+  | NY n => Some [CSymbol n]
+  | NMV id ef sf ps ng hs => Some [CMetaVar id ef sf ps ng hs]
+  | NImp l r =>
+      match pattern_calls l, pattern_calls r with
+      | Some a, Some b => Some (a ++ b ++ [CImplies (expand l) (expand r)]) | _, _ => None end
+  | NApp l r =>
+      match pattern_calls l, pattern_calls r with
+      | Some a, Some b => Some (a ++ b ++ [CApp (expand l) (expand r)]) | _, _ => None end
+  | NEx x q => match pattern_calls q with Some a => Some (a ++ [CExists x (expand q)]) | None => None end
+  | NMu X q => match pattern_calls q with Some a => Some (a ++ [CMu X (expand q)]) | None => None end
+  | NESub q x plug =>
+      match pattern_calls plug, pattern_calls q with
+      | Some a, Some b => if meta_head q then Some (a ++ b ++ [CESubst x (expand q) (expand plug)]) else None
+      | _, _ => None end
+  | NSSub q X plug =>
+      match pattern_calls plug, pattern_calls q with
+      | Some a, Some b => if meta_head q then Some (a ++ b ++ [CSSubst X (expand q) (expand plug)]) else None
+      | _, _ => None end
+  | NInst body d =>
+      match (fix go (d:list (N * npat)) : option (list call) :=
+               match d with
+               | [] => Some []
+               | (_, v) :: r => match pattern_calls v, go r with
+                                | Some a, Some b => Some (a ++ b) | _, _ => None end
+               end) d, pattern_calls body with
+      | Some a, Some b => Some (a ++ b ++ [CInstantiatePattern (expand body) (nexpand_delta d)])
+      | _, _ => None end
+  end.
+
+(** [MemoizingInterpreter.pattern] over a [StatefulInterpreter]: [sel] = the set chosen by
+    [CountingInterpreter.finalize], [mem] = the tracker memory (threaded: saves append to it) *)
+Section Memo.
+Variable sel : npat -> bool.
+
+Definition in_memory (p:npat) (mem:list term) : bool := existsb (term_eqb (TPat (expand p))) mem.
+
+Definition finish_memo (p:npat) (r:option (list call * list term)) : option (list call * list term) :=
+  match r with
+  | Some (cs, mem) =>
+      if sel p then Some (cs ++ [CSave (TPat (expand p))], mem ++ [TPat (expand p)]) else Some (cs, mem)
+  | None => None
+  end.
+
+Fixpoint memo_calls (p:npat) (mem:list term) : option (list call * list term) :=
+  if in_memory p mem then Some ([CLoad (TPat (expand p))], mem) else
+  finish_memo p
+  match p with
+  | NE n => Some ([CEVar n], mem)
+  | NS n => Some ([CSVar n], mem)
+  | NY n => Some ([CSymbol n], mem)
+  | NMV id ef sf ps ng hs => Some ([CMetaVar id ef sf ps ng hs], mem)
+  | NImp l r =>
+      match memo_calls l mem with
+      | Some (a, m1) => match memo_calls r m1 with
+                        | Some (b, m2) => Some (a ++ b ++ [CImplies (expand l) (expand r)], m2)
+                        | None => None end
+      | None => None end
+  | NApp l r =>
+      match memo_calls l mem with
+      | Some (a, m1) => match memo_calls r m1 with
+                        | Some (b, m2) => Some (a ++ b ++ [CApp (expand l) (expand r)], m2)
+                        | None => None end
+      | None => None end
+  | NEx x q => match memo_calls q mem with
+               | Some (a, m1) => Some (a ++ [CExists x (expand q)], m1) | None => None end
+  | NMu X q => match memo_calls q mem with
+               | Some (a, m1) => Some (a ++ [CMu X (expand q)], m1) | None => None end
+  | NESub q x plug =>
+      match memo_calls plug mem with
+      | Some (a, m1) => match memo_calls q m1 with
+                        | Some (b, m2) =>
+                            (* a LOADED sub-pattern is returned as the object [q] itself *)
+                            if meta_head q then Some (a ++ b ++ [CESubst x (expand q) (expand plug)], m2) else None
+                        | None => None end
+      | None => None end
+  | NSSub q X plug =>
+      match memo_calls plug mem with
+      | Some (a, m1) => match memo_calls q m1 with
+                        | Some (b, m2) =>
+                            if meta_head q then Some (a ++ b ++ [CSSubst X (expand q) (expand plug)], m2) else None
+                        | None => None end
+      | None => None end
+  | NInst body d =>
+      match (fix go (d:list (N * npat)) (mem:list term) : option (list call * list term) :=
+               match d with
+               | [] => Some ([], mem)
+               | (_, v) :: r => match memo_calls v mem with
+                                | Some (a, m1) => match go r m1 with
+                                                  | Some (b, m2) => Some (a ++ b, m2) | None => None end
+                                | None => None end
+               end) d mem with
+      | Some (a, m1) => match memo_calls body m1 with
+                        | Some (b, m2) => Some (a ++ b ++ [CInstantiatePattern (expand body) (nexpand_delta d)], m2)
+                        | None => None end
+      | None => None end
+  end.
+
+End Memo.
+
+(** a proof module: own axioms, own claims, imported submodules (proof.py:49-125) *)
+Inductive module := Mod (axioms:list npat) (claims:list npat) (subs:list module).
+
+Definition m_axioms (m:module) := match m with Mod a _ _ => a end.
+Definition m_claims (m:module) := match m with Mod _ c _ => c end.
+Definition m_subs (m:module) := match m with Mod _ _ s => s end.
+
+(** the declared theory: submodules' axioms first (import order, recursively: the import-tree walk
+    of [execute_gamma_phase]; a module imported along two paths is walked twice, D15), then own *)
+Fixpoint flat_axioms (m:module) : list npat :=
+  match m with
+  | Mod a _ s => (fix go (s:list module) : list npat :=
+                    match s with [] => [] | x :: r => flat_axioms x ++ go r end) s ++ a
+  end.
+
+(** [execute_gamma_phase] (proof.py:200) without optimisation *)
+Fixpoint axioms_calls (l:list npat) : option (list call) :=
+  match l with
+  | [] => Some []
+  | a :: r => match pattern_calls a, axioms_calls r with
+              | Some x, Some y => Some (x ++ [CPublishAxiom (expand a)] ++ y) | _, _ => None end
+  end.
+Definition gamma_calls (m:module) : option (list call) := axioms_calls (flat_axioms m).
+
+(** [execute_claims_phase] (proof.py:210): own claims only, REVERSED *)
+Fixpoint claims_calls_in_order (l:list npat) : option (list call) :=
+  match l with
+  | [] => Some []
+  | c :: r => match pattern_calls c, claims_calls_in_order r with
+              | Some x, Some y => Some (x ++ [CPublishClaim (expand c)] ++ y) | _, _ => None end
+  end.
+Definition claim_calls (m:module) : option (list call) := claims_calls_in_order (rev (m_claims m)).
+
+(** the same two phases under the memoiser *)
+Section MemoModule.
+Variable sel : npat -> bool.
+
+Fixpoint maxioms_calls (l:list npat) (mem:list term) : option (list call * list term) :=
+  match l with
+  | [] => Some ([], mem)
+  | a :: r => match memo_calls sel a mem with
+              | Some (x, m1) =>
+                  match maxioms_calls r (m1 ++ [TProved (expand a)]) with
+                  | Some (y, m2) => Some (x ++ [CPublishAxiom (expand a)] ++ y, m2) | None => None end
+              | None => None end
+  end.
+Definition mgamma_calls (m:module) : option (list call * list term) := maxioms_calls (flat_axioms m) [].
+
+Fixpoint mclaims_calls (l:list npat) (mem:list term) : option (list call * list term) :=
+  match l with
+  | [] => Some ([], mem)
+  | c :: r => match memo_calls sel c mem with
+              | Some (x, m1) =>
+                  match mclaims_calls r m1 with
+                  | Some (y, m2) => Some (x ++ [CPublishClaim (expand c)] ++ y, m2) | None => None end
+              | None => None end
+  end.
+Definition mclaim_calls (m:module) (mem:list term) : option (list call * list term) :=
+  mclaims_calls (rev (m_claims m)) mem.
+
+End MemoModule.
+
+(** the patterns published by a call sequence, in order *)
+Fixpoint pub_of (cs:list call) : list pat :=
+  match cs with
+  | [] => []
+  | CPublishAxiom p :: r | CPublishClaim p :: r | CPublishProof p :: r => p :: pub_of r
+  | _ :: r => pub_of r
+  end.
+
+(** the gamma and claim files of a module ([serialize], proof.py:269, first two phases);
+    [sel = None]: optimize off *)
+Definition mod_files (sel:option (npat -> bool)) (m:module)
+  : option (symtab * tracker * list N * list N) :=
+  let tr0 := fresh_tracker Gamma (map expand (m_claims m)) in
+  match sel with
+  | None =>
+      match gamma_calls m, claim_calls m with
+      | Some gc, Some cc =>
+          match ser_run [] tr0 gc with
+          | Some (t1, tr1, gb) =>
+              match stateful_step tr1 CIntoClaim with
+              | Some tr1' =>
+                  match ser_run t1 tr1' cc with
+                  | Some (t2, tr2, cb) => Some (t2, tr2, gb, cb)
+                  | None => None end
+              | None => None end
+          | None => None end
+      | _, _ => None end
+  | Some s =>
+      match mgamma_calls s m with
+      | Some (gc, mem1) =>
+          match mclaim_calls s m mem1 with
+          | Some (cc, _) =>
+              match ser_run [] tr0 gc with
+              | Some (t1, tr1, gb) =>
+                  match stateful_step tr1 CIntoClaim with
+                  | Some tr1' =>
+                      match ser_run t1 tr1' cc with
+                      | Some (t2, tr2, cb) => Some (t2, tr2, gb, cb)
+                      | None => None end
+                  | None => None end
+              | None => None end
+          | None => None end
+      | None => None end
+  end.
